@@ -4,6 +4,7 @@ import (
 	"fmt"
 	"math/rand"
 	"os"
+	"strings"
 
 	"verifharness/engine"
 	"verifharness/gen"
@@ -131,6 +132,63 @@ func init() {
 			ops = append(ops, engine.Op{Kind: "reopen"}, engine.Op{Kind: "verify"})
 			rep.count("scenario:meta-area-takes-the-last-pages-then-overflow", 1)
 			runOracleHistory(rep, cfg, ops, hseed, "", nil, nil)
+		}
+		// part F: commits that FAIL (injected write / sync / truncate / mmap failures), then further transactions: the
+		// allocator of the process must still be the one of the last committed state - no page of the committed state may
+		// be handed out, the free lists must still partition the file (seeded change C04k: the allocator adopts the new
+		// free lists before the commit is known to be durable). Only allocator / ownership failures are reported here;
+		// everything else a fault history can show belongs to C08.
+		for i := 0; i < nH/4; i++ {
+			if rep.outOfTime() {
+				break
+			}
+			hseed := r.Int63()
+			hr := rand.New(rand.NewSource(hseed))
+			cfg := gen.PickConfig(hr)
+			ops, kinds := faultHistory(hr)
+			owner := func(fs []string) string {
+				for _, m := range fs {
+					sg := failSig(m)
+					if strings.HasPrefix(sg, "allocator-partition") || strings.HasPrefix(sg, "free-list-accounting") ||
+						strings.HasPrefix(sg, "meta-area-accounting") || strings.HasPrefix(sg, "allocated-page") || strings.Contains(m, "allocated page") {
+						return m
+					}
+				}
+				return ""
+			}
+			e, hang := c08Run(cfg, ops, false)
+			rep.Evaluations++
+			rep.count("scenario:failing-commits-then-allocations", 1)
+			if hang != "" || e == nil {
+				continue
+			}
+			rep.count("failing-commits", e.Stats["err:commit"])
+			first := owner(e.Failures)
+			if first == "" {
+				continue
+			}
+			sig := "fault/" + failSig(first)
+			min := ops
+			if !rep.distinct["viol/"+sig] {
+				nofaults := func(o []engine.Op) (n int) {
+					for _, op := range o {
+						if op.Kind == "nofault" {
+							n++
+						}
+					}
+					return n
+				}
+				min = engine.Shrink(ops, func(c []engine.Op) bool {
+					if nofaults(c) != nofaults(ops) {
+						return false
+					}
+					e2, h2 := c08Run(cfg, c, false)
+					return h2 == "" && e2 != nil && owner(e2.Failures) != "" && "fault/"+failSig(owner(e2.Failures)) == sig
+				})
+			}
+			rep.violate(Violation{Kind: "oracle", Sig: sig,
+				Detail: fmt.Sprintf("%s on %s (%s); minimal history: %s", first, cfg, kinds, opKinds(min)),
+				Replay: histReplay{Config: cfg, Ops: min, Failures: []string{first}, Seed: hseed, Mode: "c08"}})
 		}
 		rep.ModelCalls = m.N
 		return rep.finish(f)
